@@ -2,6 +2,7 @@
 (* Exhaustive exploration of KRepl (L2) against the L1 invariants.  Counterexamples and complete
    behaviours are exported as JSON (one line each) for replay on the real servers. *)
 EXTENDS KRepl, Json
+CONSTANT ArmQuota   \* how many histories per apply-arm each worker exports
 \* a violated invariant prints the operation history that led to the state
 \* (at most 40 per worker; never fails, so the whole bounded space is explored past known violations)
 ASSUME TLCSet(1, 0)
@@ -11,6 +12,16 @@ InvConvergedSessions    == Cex("ConvergedSessions", ConvergedSessions)
 InvUniqueLive           == Cex("UniqueLive", UniqueLive)
 \* export of complete behaviours (used with -simulate): prints when the budget is exhausted
 Export == (nrepl = MaxRepl /\ nwrites = MaxWrites) => PrintT(<<"BEH", ToJson(hist)>>)
+\* transition coverage: the first few histories (per worker) that end in an exchange taking each arm of the
+\* consumer's apply logic are exported, so that every arm is replayed on the real servers
+ArmNames == <<"tomb-tomb", "tomb-absent", "tomb-over-live", "live-onto-tomb", "new-entry", "addconflict-keep",
+              "addconflict-replace", "merge-into-recycled", "merge-recycle", "merge-revive", "merge",
+              "unique-clash", "conflict-copy-created", "nothing-to-supply", "refused-refresh", "refused-unwilling",
+              "refused-critical", "refused-nooverlap">>
+ArmIdx(a) == 10 + CHOOSE i \in 1..Len(ArmNames) : ArmNames[i] = a
+ASSUME \A i \in 1..Len(ArmNames) : TLCSet(10 + i, 0)
+ArmExport == \A a \in arms :
+   IF TLCGet(ArmIdx(a)) < ArmQuota THEN TLCSet(ArmIdx(a), TLCGet(ArmIdx(a)) + 1) /\ PrintT(<<"ARM", a, ToJson(hist)>>) ELSE TRUE
 \* vacuity guards: each must be VIOLATED by some reachable state (checked in a separate run)
 SomeQuiescentAfterWork == ~(Quiescent /\ nwrites > 0 /\ nrepl > 0)
 =============================================================================
